@@ -81,7 +81,7 @@ pub fn gen(tier: Tier, r: &mut Rng, emit: &mut dyn FnMut(String)) {
     for s in [&b""[..], b"{}", b"[]", b"[[]]", b"{\"a\":[1,{\"b\":null}],\"c\":\"x\\\"]\"}", b" [ 1 , 2 ] ", b"\"abc", b"[1,2", b"]]", b"tru", b"-", b"\"a\\"] {
         emit_q(emit, r, s, 300);
     }
-    let n = if quick { 1500 } else { 150_000 };
+    let n = if quick { 1500 } else { 40_000 };
     for i in 0..n {
         let nodes = match i % 6 {
             0 => 2,
